@@ -159,7 +159,20 @@ func ruleClientReport(c *Ctx, a *udpAnchors) {
 	// in the loop, once per iteration; when the report sits in a helper, the helper's (single) call in the loop stands for it
 	var at ssa.Instruction = r
 	if !inFamily[rf] {
-		if sites := helperSite[rf]; len(sites) == 1 {
+		// calls that pass no association (a nil constant for a pointer parameter) report nothing: they only log
+		var sites []*ssa.Call
+		for _, sc := range helperSite[rf] {
+			nilAssoc := false
+			for _, ar := range sc.Call.Args {
+				if k, isC := ar.(*ssa.Const); isC && k.IsNil() && eng.TypeName(ar.Type()) == a.m.connT {
+					nilAssoc = true
+				}
+			}
+			if !nilAssoc {
+				sites = append(sites, sc)
+			}
+		}
+		if len(sites) == 1 {
 			at = sites[0]
 		}
 	}
